@@ -44,7 +44,8 @@ Lemma lines_ok_words all o w : forall fs k, lines_ok all o w k fs ->
 Proof.
   induction fs as [|f fs IH]; intros k H; [reflexivity|].
   destruct f as [wid y h r o' w'|]; [|contradiction]. simpl in H. destruct H as (Hn & _ & _ & _ & Hr).
-  simpl. rewrite (skipn_nth_cons _ _ _ Hn). simpl. f_equal. now apply IH.
+  rewrite (skipn_nth_cons _ _ _ Hn). unfold fwords_l in *. cbn [flat_map fwords length firstn app].
+  f_equal. now apply IH.
 Qed.
 
 Lemma lines_ok_firstn all o w : forall n fs k, lines_ok all o w k fs -> lines_ok all o w k (firstn n fs).
@@ -79,11 +80,11 @@ Proof.
   set (needed := (s_widows st - 1 - Nat.min (s_widows st - 1) rem)).
   destruct ((Z.of_nat n - Z.of_nat (s_orphans st) <? Z.of_nat needed)%Z && negb pie) eqn:E2; [discriminate|].
   assert (Hn : 1 <= n).
-  { destruct n; [|lia]. simpl in Hc. destruct pie; simpl in *; [discriminate|].
-    rewrite andb_true_r in E1. apply Z.ltb_ge in E1. lia. }
+  { destruct n; [|lia]. simpl in Hc. destruct pie; [discriminate Hc|].
+    change (negb false) with true in E1. rewrite andb_true_r in E1. apply Z.ltb_ge in E1. clear - E1 Ho. lia. }
   destruct (negb (needed =? 0) && (Z.of_nat needed <=? Z.of_nat n - Z.of_nat (s_orphans st))%Z) eqn:E3;
     intros H; inversion H; subst; [|lia].
-  apply andb_prop in E3. destruct E3 as [_ E3]. apply Z.leb_le in E3. lia.
+  apply andb_prop in E3. destruct E3 as [_ E3]. apply Z.leb_le in E3. clear - E3 Ho Hn. lia.
 Qed.
 
 Section Lines.
@@ -93,7 +94,7 @@ Let o := s_orphans st.
 Let w := s_widows st.
 
 Lemma lines_loop_spec : forall ids k gen_y y placed mt dbd cur k0,
-  skipn k all = ids -> k = k0 + length placed -> lines_ok all o w k0 placed ->
+  skipn k all = ids -> k <= length all -> k = k0 + length placed -> lines_ok all o w k0 placed ->
   let r := lines_loop c st pb bb index pie bs ids k gen_y y placed mt dbd cur in
   lr_abort r = true \/
   (lr_abort r = false /\ lr_stop r = true /\ lr_placed r <> [] /\ lines_ok all o w k0 (lr_placed r) /\
@@ -101,14 +102,12 @@ Lemma lines_loop_spec : forall ids k gen_y y placed mt dbd cur k0,
   (lr_abort r = false /\ lr_stop r = false /\ lines_ok all o w k0 (lr_placed r) /\
    k0 + length (lr_placed r) = length all).
 Proof.
-  induction ids as [|id rest IH]; intros k gen_y y placed mt dbd cur k0 Hs Hk Hok; cbn zeta.
+  induction ids as [|id rest IH]; intros k gen_y y placed mt dbd cur k0 Hs Hle Hk Hok; cbn zeta.
   - simpl. right; right. repeat split; auto.
     assert (length all <= k).
     { destruct (le_lt_dec (length all) k) as [|Hlt]; [assumption|].
       apply nth_error_Some in Hlt. destruct (nth_error all k) eqn:E; [|congruence].
       rewrite (skipn_nth_cons _ _ _ E) in Hs. discriminate. }
-    destruct placed as [|p placed']; [simpl in *; lia|].
-    assert (k0 + length (p :: placed') <= length all) by (apply lines_ok_bound with o w; [assumption|congruence]).
     lia.
   - assert (Hnth : nth_error all k = Some id).
     { destruct (nth_error all k) eqn:E.
@@ -135,9 +134,55 @@ Proof.
         -- rewrite firstn_length. lia.
       * left. reflexivity.
     + (* the line is placed *)
-      apply IH with (k0 := k0); auto.
+      apply IH with (k0 := k0); [exact Hrest|lia| |].
       * rewrite app_length. simpl. lia.
       * apply lines_ok_app. split; [assumption|]. simpl. rewrite <- Hk.
         repeat split; auto. 
 Qed.
 End Lines.
+
+Definition start_line (sub : option skip) : nat := match sub with Some (SLine k) => k | _ => 0 end.
+
+Lemma wf_skip_lines ids sub : wf_skip (Lines ids) sub -> sub = None \/ exists k, sub = Some (SLine k) /\ k < length ids.
+Proof. destruct sub as [[k|i s]|]; simpl; intros H; [right; eauto|contradiction|left; reflexivity]. Qed.
+
+Lemma lines_step_spec c st pb bb pie bs ids index sub s :
+  1 <= s_orphans st -> wf_skip (Lines ids) sub ->
+  match lines_step c st pb bb pie bs ids index sub s with
+  | SAbort _ => True
+  | SStop res s' =>
+      exists placed n, ls_newc s' = ls_newc s ++ placed /\
+        lines_ok ids (s_orphans st) (s_widows st) (start_line sub) placed /\ placed <> [] /\
+        n = start_line sub + length placed /\ n < length ids /\ res = Some (SChild index (Some (SLine n)))
+  | SCont s' =>
+      exists placed, ls_newc s' = ls_newc s ++ placed /\
+        lines_ok ids (s_orphans st) (s_widows st) (start_line sub) placed /\
+        start_line sub + length placed = length ids
+  end.
+Proof.
+  intros Ho Hwf. unfold lines_step, linebox_layout.
+  set (k := match sub with Some (SLine k) => k | _ => 0 end).
+  assert (Hk : k = start_line sub) by reflexivity.
+  assert (Hkle : k <= length ids).
+  { apply wf_skip_lines in Hwf. destruct Hwf as [->|[k' [-> Hlt]]]; simpl in *; subst k; simpl; lia. }
+  match goal with |- context [lines_loop c st pb bb index pie bs (skipn k ids) k ?gy ?y [] ?mt ?dbd sub] =>
+    pose proof (lines_loop_spec c st pb bb index pie bs ids Ho (skipn k ids) k gy y [] mt dbd sub k
+                  eq_refl Hkle ltac:(simpl; lia) I) as Hspec;
+    set (r := lines_loop c st pb bb index pie bs (skipn k ids) k gy y [] mt dbd sub) in *
+  end.
+  cbn zeta in Hspec. rewrite <- Hk.
+  destruct Hspec as [Hab|[(Hab & Hst & Hne & Hok & Hlt)|(Hab & Hst & Hok & Heq)]].
+  - (* abort *)
+    destruct (lr_placed r); simpl; rewrite Hab; exact I.
+  - (* stop *)
+    destruct (lr_placed r) as [|p pl] eqn:Ep; [congruence|].
+    cbn [lr_abort lr_stop lr_resume lr_placed lr_y lr_mt]. rewrite Hab, Hst.
+    exists (p :: pl), (k + length (p :: pl)). repeat split; auto.
+    rewrite (lines_ok_last_resume _ _ _ _ _ Hok) by congruence.
+    apply Nat.ltb_lt in Hlt. rewrite Hlt. reflexivity.
+  - (* everything placed *)
+    destruct (lr_placed r) as [|p pl] eqn:Ep.
+    + rewrite Hab, Hst. exists []. rewrite Ep. repeat split; auto.
+    + cbn [lr_abort lr_stop lr_resume lr_placed lr_y lr_mt]. rewrite Hab, Hst.
+      exists (p :: pl). repeat split; auto.
+Qed.
